@@ -689,13 +689,62 @@ def rule_r14(ctx):
 # R15: an escape is decoded into a raw byte only when that byte is known not to be NUL
 
 
+
+
+def _pred_false_at_zero(prog, f, call, v):
+    """the call is g(.., v, ..) of a helper whose only return statement yields an expression over that parameter and constants
+    which is 0 for the value 0"""
+    g = prog.resolve(f, call["fn"])
+    if g is None or g.cfg_failed:
+        return False
+    pi = None
+    for i, a in enumerate(call["args"]):
+        a = f.expand(a)
+        while a is not None and a.get("k") in ("cast",) or (a is not None and a.get("k") == "un" and a.get("op") in ("(cast)", "()")):
+            a = a["e"]
+        if a is not None and a.get("k") == "var" and a["n"] == v:
+            pi = i
+    if pi is None or pi >= len(g.params):
+        return False
+    pn = g.params[pi]["n"]
+    rets = [s for s in g.sites() if s.node.get("k") == "ret"]
+    if len(rets) != 1 or any(s.node.get("k") in ("asg", "call", "incdec") for s in g.sites()):
+        return False
+
+    def ev(x, d=0):
+        if x is None or d > 40:
+            return None
+        k = x.get("k")
+        if const_of(x) is not None:
+            return const_of(x)
+        if k == "var":
+            return 0 if x["n"] == pn else None
+        if k == "cast" or (k == "un" and x.get("op") in ("(cast)", "()")):
+            return ev(x["e"], d + 1)
+        if k == "un" and x.get("op") == "!":
+            t = ev(x["e"], d + 1)
+            return None if t is None else int(not t)
+        if k == "bin":
+            a, b = ev(x["lhs"], d + 1), ev(x["rhs"], d + 1)
+            op = x["op"]
+            if op == "&&":
+                return 0 if (a == 0 or b == 0) else (None if a is None or b is None else 1)
+            if op == "||":
+                return 1 if ((a is not None and a != 0) or (b is not None and b != 0)) else (None if a is None or b is None else 0)
+            if a is None or b is None:
+                return None
+            return {"==": int(a == b), "!=": int(a != b), "<": int(a < b), "<=": int(a <= b), ">": int(a > b), ">=": int(a >= b)}.get(op)
+        return None
+    return ev(g.expand(rets[0].node.get("e"))) == 0
+
+
 def rule_r15(ctx):
     r = ctx.rule("C19.R15", "T1", "%00 stays escaped: in nni_url_canonify_uri the value decoded from %XX is written into the string as "
                  "a raw byte only over an edge that excludes 0 (a comparison c >= k with k > 0, c == k with k != 0, or a "
                  "character-class test that 0 does not pass) -- a membership test with strchr(set, c) is true for c == 0 (it "
                  "finds the set's own terminator), so %00 would be decoded into a NUL that silently cuts the URL short: path, "
                  "query and fragment behind it vanish and are no longer validated", floor=1)
-    r.own_opinion = True
+    r.follows_values = True      # a character-class helper is looked into through the helpers-inlined view
     f = ctx.prog.need("nni_url_canonify_uri", "core/url.c")
     n = 0
     for t in f.assigns():
@@ -713,6 +762,8 @@ def rule_r15(ctx):
                       (op == "!=" and cv == 0 and val) or (op == "<" and cv > 0 and not val) or (op == "<=" and cv >= 0 and not val)
                 if est:
                     nonzero[bid] = k
+            elif val and a.get("k") == "call" and a.get("fn") and _pred_false_at_zero(ctx.prog, f, a, v):
+                nonzero[bid] = k          # a character-class helper that 0 does not pass
             elif val and "__ctype_b_loc" in show(a) and any(m.get("k") == "var" and m["n"] == v for m in walk(a)) and \
                     any(x in show(a) for x in ("_ISalnum", "_ISalpha", "_ISdigit", "_ISxdigit", "_ISupper", "_ISlower")):
                 nonzero[bid] = k
